@@ -191,6 +191,17 @@ def report_safety(rec, I, kind, named_s, calls, desc, option, other=None):
                     continue
             named_c = concretize(named_s, m)
             out = sandriver.run_scenario(kind, named_c, ["init"] + driver_calls(calls, other, (kind, named_c)))
+            if out["status"] == "ok" and option in ("gillespie", "tauleap"):
+                # which event is drawn depends on the generator: the same scenario under other seeds, and a plain long run
+                for sd_ in range(1, 17):
+                    nc2 = dict(named_c, seed=sd_)
+                    for seq in (["init"] + driver_calls(calls, other, (kind, nc2)), ["init", "iterate_n 400", "fetch", "finalize"]):
+                        out2 = sandriver.run_scenario(kind, nc2, seq)
+                        if out2["status"] != "ok":
+                            out = out2
+                            break
+                    if out["status"] != "ok":
+                        break
             r = {"ok": out["status"] != "ok", "report": out["report"], "scenario": out["scenario"]}
             _replayed[sig] = r
         rec.violation(sig, "%s: %s [%s] sanitizer build: %s" % (name, f["detail"], desc, r["report"][:300].replace("\n", " | ")),
